@@ -275,6 +275,13 @@ func smallShapes() [][]fileEnt {
 	pair(f("a"), f("a", "a"))
 	pair(pad("a"), f("a"))
 	pair(pad("a"), pad("a"))
+	// entries marked as padding with hostile paths: when the parser runs without padding support (resume data of an older
+	// version, a moved torrent) they are ordinary files on disk
+	pair(f("a"), pad(".."))
+	pair(f("a"), pad("..", "a"))
+	pair(f("a"), pad("..", "..", "a"))
+	pair(pad("../a"), f("a"))
+	pair(f("a"), f("..", "_____padding_file_0"))
 	pair(f("a"), f("_____padding_file_0"))
 	pair(f("_____padding_file_0"), f("_____padding_file_0"))
 	return out
